@@ -262,14 +262,109 @@ def one_case(rep, cs, seed, i, exhaustive_spec=None):
     cs.add(desc, term, interp, nontrivial=desc["na"] >= 3)
 
 
+def rg_case(rep, cs, seed, i):
+    """region-graph level flag: RegionGraph.is_structured_decomposable against the set-based definition, the verified
+    predicate rg_sd of the model, and the flag of a circuit built from the graph"""
+    from cirkit.templates.region_graph.graph import RegionGraph, RegionNode, PartitionNode
+    import cirkit.templates.region_graph as RGM
+    from props.C16 import py_sd, ex_rg
+    rng = rng_for(seed, PID + "rg", i)
+    kind = rng.choice(["rbt", "rbt", "dup", "dup", "quadgraph", "pd", "linear"])
+    try:
+        if kind == "rbt":
+            n = rng.randint(4, 9)
+            kw = {"depth": None, "num_repetitions": rng.choice([2, 2, 3]), "seed": rng.randint(0, 1000)}
+            rg = RGM.RandomBinaryTree(n, **kw)
+            meta = {"n": n, **kw}
+        elif kind == "linear":
+            n = rng.randint(3, 7)
+            kw = {"num_repetitions": rng.choice([1, 2, 3]), "randomize": True, "seed": rng.randint(0, 1000)}
+            rg = RGM.LinearTree(n, **kw)
+            meta = {"n": n, **kw}
+        elif kind == "quadgraph":
+            shape = (1, rng.randint(2, 4), rng.randint(2, 4))
+            rg = RGM.QuadGraph(shape)
+            meta = {"shape": list(shape)}
+        elif kind == "pd":
+            shape = (1, rng.randint(2, 4), rng.randint(2, 4))
+            kw = {"delta": rng.choice([1, 2]), "max_depth": rng.choice([None, 2])}
+            rg = RGM.PoonDomingos(shape, **kw)
+            meta = {"shape": list(shape), **{k: str(v) for k, v in kw.items()}}
+        else:
+            # two distinct region nodes over the same scope (copies hanging from two equal root partitions), split the same
+            # way or differently
+            n = rng.choice([5, 6, 7])
+            vs = list(range(n))
+            rng.shuffle(vs)
+            cut = rng.randint(2, n - 2)
+            A, B = sorted(vs[:cut]), sorted(vs[cut:])
+            big = A if len(A) >= 3 else B
+            if len(big) < 3:
+                return
+            other = B if big is A else A
+            same = rng.random() < 0.4
+            splits = []
+            for rep_ in range(2):
+                k = 1 if (same or rep_ == 0) else 2
+                splits.append((big[:k], big[k:]))
+            nodes, inn = [], {}
+            root = RegionNode(range(n))
+            nodes.append(root)
+            inn[root] = []
+            for l, r in splits:
+                p = PartitionNode(range(n))
+                rb, ro = RegionNode(big), RegionNode(other)
+                pb = PartitionNode(big)
+                rl, rr = RegionNode(l), RegionNode(r)
+                nodes += [p, rb, ro, pb, rl, rr]
+                inn[root].append(p)
+                inn[p] = [rb, ro]
+                inn[rb] = [pb]
+                inn[pb] = [rl, rr]
+            rg = RegionGraph(nodes, inn, [root])
+            meta = {"n": n, "same_split": same, "splits": [list(map(list, sp)) for sp in splits]}
+    except Exception as e:
+        rep.count("rg-build-failed:" + type(e).__name__)
+        return
+    desc = {"i": i, "seed": seed, "family": "region-graph", "kind": kind, **meta, "na": len(list(rg.region_nodes))}
+    rep.count("family:region-graph:" + kind)
+    flag = bool(rg.is_structured_decomposable)
+    want = py_sd(rg)
+    rep.count(f"rg-sd:{int(want)}")
+    if flag != want:
+        rep.violation("rg-sd-flag", "RegionGraph.is_structured_decomposable differs from the definition (partitions of equal scope split it into the same set of sub-scopes)",
+                      {"case": desc, "observed": flag, "expected": want})
+    try:
+        sc = rg.build_circuit(input_factory=lambda scope, K: L.EmbeddingLayer(scope, K, num_states=2, weight=P.Parameter.from_input(P.ConstantParameter(K, 2, value=1.0))),
+                              sum_product="cp", num_input_units=1, num_sum_units=1,
+                              sum_weight_factory=lambda shape: P.Parameter.from_input(P.ConstantParameter(*shape, value=1.0)))
+        cflag = bool(sc.is_structured_decomposable)
+        if cflag != want and len(list(rg.partition_nodes)) > 0:
+            rep.violation("rg-circuit-sd-flag", "the circuit built from a region graph reports a structured-decomposability flag that differs from the definition on the graph",
+                          {"case": desc, "observed": cflag, "expected": want})
+    except Exception as e:
+        rep.count("rg-circuit-failed:" + type(e).__name__)
+    term = f"[b2n (rg_sd {ex_rg(rg)})]"
+    impl = [int(flag)]
+
+    def interp(res, desc=desc, impl=impl):
+        if res != impl:
+            rep.violation("rg-sd-corr", "the verified predicate rg_sd and RegionGraph.is_structured_decomposable disagree",
+                          {"case": desc, "model": res, "implementation": impl}, found_input=False)
+
+    cs.add(desc, term, interp, nontrivial=True)
+
+
 def run(rep, tier, seed, replay=None):
     n = 300 if tier == "quick" else 6000
     cs = CaseSet(rep, PID)
     if replay is not None:
         c = replay["replay"].get("case", {})
-        one_case(rep, cs, c.get("seed", seed), c.get("i", 0))
+        (rg_case if c.get("family") == "region-graph" else one_case)(rep, cs, c.get("seed", seed), c.get("i", 0))
         cs.run()
         return
     for i in range(n):
         one_case(rep, cs, seed, i)
+    for i in range(max(40, n // 8)):
+        rg_case(rep, cs, seed, i)
     cs.run(shard=max(10, 300 // 14))  # shard size of the quick tier: thorough runs use more files, not longer ones
